@@ -1,13 +1,17 @@
 package worlds
 
 import (
+	"context"
 	"crypto/sha256"
 	"encoding/hex"
 	"fmt"
 	"os"
+	"runtime"
 	"strings"
 	"sync"
 	"time"
+
+	"mosn.io/mosn/pkg/upstream/cluster"
 
 	"verif/peers"
 	"verif/sim"
@@ -41,6 +45,9 @@ type ProxyParams struct {
 	BigBodies    bool
 	ProtoTimeout bool // requests carry a protocol-level timeout
 	WorkerPool   bool
+	IdleCloses   int  // upstream connections closed by the peer at random instants (whatever their state)
+	Garbage      int  // client connections that send malformed input (C08)
+	UpGarbage    bool // upstreams may answer with malformed bytes (C08)
 }
 
 // Proxy is the W-proxy world.
@@ -57,6 +64,10 @@ type Proxy struct {
 	h1clients    []*peers.H1Client
 	h1ups        []*peers.H1Upstream
 	dialMu       sync.Mutex
+	garbage      []*peers.GarbageClient
+	garbageTok   map[string]bool
+	allocBase    uint64
+	allocWatch   int
 	probe        []*peers.ReqRec
 	probeCl      *peers.XClient
 	hostAddrs    []string
@@ -106,6 +117,17 @@ func DrawProxyParams(ch *sim.Choices, prop string) ProxyParams {
 	p.WorkerPool = !ch.Bool("params", "noworkerpool")
 	p.ConnTimeoutS = pickFrom(ch, "params", "conntimeout", []int{0, 1, 3})
 	p.BigBodies = ch.Chance("params", "big", 1, 4)
+	if prop == "C08" {
+		p.Faults = true
+		p.Garbage = 1 + ch.Pick("params", "ngarbage", 3)
+		p.UpGarbage = ch.Bool("params", "upgarbage")
+	}
+	if prop == "C09" || (p.Faults && ch.Chance("params", "idlecloses", 1, 3)) {
+		p.IdleCloses = ch.Pick("params", "nidlecloses", 4)
+	}
+	if prop == "C09" {
+		p.NConns = 2 + ch.Pick("params", "nconns9", 5)
+	}
 	if p.Faults {
 		p.GlobalMs = pickFrom(ch, "params", "globalms", []int{0, 500, 200, 50, 1000})
 		p.TryMs = pickFrom(ch, "params", "tryms", []int{0, 100, 20, 200})
@@ -231,7 +253,7 @@ func (w *Proxy) buildConfig() []byte {
 
 // NewProxy builds the world (inside the bubble).
 func NewProxy(s *sim.Sim, prop string, p ProxyParams) *Proxy {
-	w := &Proxy{S: s, P: p, Prop: prop, H: peers.NewHistory(), hostMode: map[string]int{}, Stats: map[string]int{}}
+	w := &Proxy{S: s, P: p, Prop: prop, H: peers.NewHistory(), hostMode: map[string]int{}, Stats: map[string]int{}, garbageTok: map[string]bool{}}
 	w.N = sim.NewNet(s)
 	return w
 }
@@ -296,6 +318,15 @@ func (w *Proxy) drawAction(ch *sim.Choices) peers.Action {
 	a := peers.Action{Delay: pickFrom(ch, "work", "delay", cands)}
 	a.Delay2 = pickFrom(ch, "work", "delay2", []time.Duration{0, time.Millisecond, 30 * time.Millisecond})
 	k := ch.Pick("work", "act", 20)
+	if p.UpGarbage && ch.Chance("work", "upgarbage", 1, 4) {
+		if ch.Bool("work", "upgarbagekind") {
+			a.Kind = "garbage_reply"
+			a.Junk = ch.Bytes("work", 1+ch.Pick("work", "junklen", 80))
+		} else {
+			a.Kind = "corrupt_reply"
+		}
+		return a
+	}
 	switch {
 	case k < 9:
 		a.Kind = "reply"
@@ -357,6 +388,30 @@ func (w *Proxy) Setup() error {
 		}
 	}
 	w.setupClients()
+	w.setupGarbage()
+	for i := 0; i < p.IdleCloses; i++ {
+		at := pickFrom(ch, "work", "idlecloseat", []time.Duration{5 * time.Millisecond, 50 * time.Millisecond, 150 * time.Millisecond, 400 * time.Millisecond, time.Second, 3 * time.Second})
+		rst := ch.Chance("work", "idlecloserst", 1, 4)
+		s.At(at, "upclose", func() {
+			var ups []*sim.Conn
+			for _, c := range w.N.Conns {
+				if c.Role == "up" && c.Open() {
+					ups = append(ups, c)
+				}
+			}
+			if len(ups) == 0 {
+				return
+			}
+			c := ups[s.Ch.Pick("work", "idleclosewhich", len(ups))]
+			s.Fault("up_conn_closed_by_peer")
+			s.Logf("upstream closes c%d rst=%v", c.ID, rst)
+			if rst {
+				c.PeerReset()
+			} else {
+				c.PeerClose()
+			}
+		})
+	}
 	s.Quiesce = append(s.Quiesce, w.quiescent)
 	// workload features, for evidence and for the conditions of known findings
 	for _, x := range p.Protos {
@@ -414,6 +469,16 @@ func (w *Proxy) resolved(r *peers.ReqRec) bool {
 }
 
 func (w *Proxy) quiescent() {
+	if w.allocWatch > 0 {
+		// C08: no allocation for announced-but-unarrived bytes
+		w.allocWatch--
+		var ms runtime.MemStats
+		runtime.ReadMemStats(&ms)
+		if d := ms.TotalAlloc - w.allocBase; d > 64<<20 {
+			w.S.Violate("C08", "alloc_for_unarrived_bytes", "%d MiB allocated within %d steps after malformed input of a few bytes was sent", d>>20, 60-w.allocWatch)
+			w.allocWatch = 0
+		}
+	}
 	w.checkC09Quiescent()
 	w.checkC10Quiescent()
 	if w.finalSet {
@@ -524,7 +589,9 @@ func (w *Proxy) checkProbe(k int) {
 		if !overflow {
 			continue
 		}
-		w.S.Violate("C09", "capacity_not_restored", "at idle, %d concurrent fresh requests (max_requests=%d max_connections=%d) must all be admitted, but probe req#%d was refused with the overflow status %d", k, w.P.MaxReqs, w.P.MaxConns, r.Idx, r.Replies[0].Status)
+		snap := cluster.GetClusterMngAdapterInstance().ClusterManager.GetClusterSnapshot(context.Background(), "c0")
+		rm := snap.ClusterInfo().ResourceManager()
+		w.S.Violate("C09", "capacity_not_restored", "at idle, %d concurrent fresh requests (max_requests=%d max_connections=%d) must all be admitted, but probe req#%d was refused with the overflow status %d (now: requests cur=%d, connections cur=%d)", k, w.P.MaxReqs, w.P.MaxConns, r.Idx, r.Replies[0].Status, rm.Requests().Cur(), rm.Connections().Cur())
 		return
 	}
 	w.Stats["capacity_probes"]++
@@ -805,4 +872,56 @@ func (w *Proxy) Digest() string {
 		}
 	}
 	return hex.EncodeToString(h.Sum(nil)[:12])
+}
+
+// setupGarbage adds the client connections that send malformed input (C08):
+// single-field corruptions of valid frames, truncated frames followed by FIN,
+// random bytes — for the listener's protocols (or anything, for an Auto listener).
+func (w *Proxy) setupGarbage() {
+	s, ch, p := w.S, w.S.Ch, w.P
+	for gi := 0; gi < p.Garbage; gi++ {
+		proto := p.Protos[ch.Pick("work", "gproto", len(p.Protos))]
+		g := &peers.GarbageClient{S: s, Name: fmt.Sprintf("garbage%d", gi)}
+		var valid []byte
+		tok := fmt.Sprintf("%016x", sim.Mix(ch.Seed^0x6a756e6b, uint64(gi)))
+		if proto == "http1" {
+			m := &peers.H1Msg{IsReq: true, Method: "POST", Target: "/g", Body: []byte("garbage-body-" + tok),
+				Headers: []peers.KV{{K: "Host", V: "svc.test"}, {K: "X-Tok", V: tok}, {K: "service", V: "svc0"}}}
+			valid = peers.BuildH1(m)
+			switch ch.Pick("work", "h1garbage", 6) {
+			case 0:
+				g.Payload, g.Kind = []byte("POST /g HTTP/1.1\r\nHost: x\r\nContent-Length: 99999999999999999999\r\n\r\nabc"), "h1 absurd content-length"
+			case 1:
+				g.Payload, g.Kind = []byte("POST /g HTTP/1.1\r\nHost: x\r\nTransfer-Encoding: chunked\r\n\r\nzz\r\nabc\r\n0\r\n\r\n"), "h1 bad chunk size"
+			case 2:
+				g.Payload, g.Kind = []byte("GET /g HTTP/1.1\r\nno colon here\r\n\r\n"), "h1 header without colon"
+			case 3:
+				// (a Content-Length of 2 GiB followed by 3 bytes makes fasthttp - not one of MOSN's own
+				// decoders - allocate the announced 2 GiB at once when max_request_body_size is unset;
+				// noted in DESIGN.md, not generated here because it only slows the batch down)
+				g.Payload, g.Kind = []byte("POST /g HTTP/1.1\r\nHost: x\r\nContent-Length: 70000\r\n\r\nabc"), "h1 content-length 70000, 3 bytes sent"
+			default:
+				g.Payload, g.Kind = peers.Corrupt("http1", valid, ch)
+			}
+		} else {
+			f := &peers.XFrame{IsReq: true, ID: uint64(7000 + gi), Class: "com.verif.Req", Body: []byte("garbage-body-" + tok),
+				Headers: []peers.KV{{K: "service", V: "svc0"}, {K: "tok", V: tok}}}
+			valid = peers.CodecFor(proto).Build(f)
+			g.Payload, g.Kind = peers.Corrupt(proto, valid, ch)
+		}
+		g.Kind = proto + " " + g.Kind
+		g.FinAfter = ch.Chance("work", "gfin", 1, 3)
+		w.garbage = append(w.garbage, g)
+		w.garbageTok[tok] = true
+		at := time.Duration(ch.Pick("work", "gat", 300)) * time.Millisecond
+		s.At(at, "garbage:"+g.Name, func() {
+			s.Fault("garbage_client")
+			var ms runtime.MemStats
+			runtime.ReadMemStats(&ms)
+			if proto != "http1" { // MOSN's own decoders only (HTTP/1 parsing is fasthttp's)
+				w.allocBase, w.allocWatch = ms.TotalAlloc, 60
+			}
+			g.Start(func(pe sim.Peer) *sim.Conn { return w.N.Connect(w.lisAddr, g.Name, pe) })
+		})
+	}
 }
